@@ -190,6 +190,8 @@ def run(res, tier, seed):
                    (1, ["calibrated", "counts", "telemetry", "dataset", "save_cut", "meta", "angles", "lonlat"]),
                    # tie-point-only coordinates on the file with two unflagged out-of-range lines: mask / summary around every producer
                    (2, ["mask", "lonlat", "mask", "qual", "calibrated", "mask", "angles", "mask", "dataset", "mask", "lonlat"]),
+                   # POD with the clock-drift correction: the angles asked first, then after the coordinates, then again
+                   (0, ["angles", "lonlat", "angles", "times", "angles", "dataset", "angles"]),
                    # nearest element set older than the limit: repeated angle requests around other accessors
                    (len(configs) - 1, ["angles", "angles", "lonlat", "angles", "save", "angles"])]
         for h in range(nh + len(scripts)):
